@@ -47,3 +47,6 @@ SPEC = {'id': 'C14',
  'design_ref': 'DESIGN.md §5.14',
  'assumptions': ["net/http delivers the request's method, path, headers and body to the handler as sent",
                  'the core calls return (C04)']}
+
+SPEC['rule'] += (' Added after the seeded-change rounds: ' +
+    'Raw requests that announce a huge Content-Length (up to 2^62) with a short or no body; a client naming an unknown bridge while polls of the scripted flows wait (those polls must still be answered); two overlapping polls under one session id; a herd of 192 polls; one scripted flow is forced in-process through the real handlers (deterministic), the same flows run against the binary.')
